@@ -1,6 +1,6 @@
 (* Model/Dispatch.v -- the single extracted entry point.  op numbers: <property>*100 + k *)
 From Coq Require Import ZArith List Bool.
-From B2Z Require Import Base.Prims Base.Sx Model.Partitions Model.IndexParse Model.BinArith Model.Schema Model.Overlap Model.Icf Model.RegionIndex Model.Plink.
+From B2Z Require Import Base.Prims Base.Sx Model.Partitions Model.IndexParse Model.BinArith Model.Schema Model.Overlap Model.Icf Model.RegionIndex Model.Plink Model.LocalAlleles.
 Import ListNotations.
 Open Scope Z_scope.
 
@@ -188,6 +188,27 @@ Definition d_C16 (k : Z) (arg : sx) : sx :=
   | _, _ => err_sx 2
   end.
 
+(* ---- C17 ---- *)
+Definition sx_resLL (r : res (list (list Z))) : sx := match r with Ok v => L [A 1; of_ZLL v] | Err e => L [A 0; A e] end.
+Definition d_C17 (k : Z) (arg : sx) : sx :=
+  match k, arg with
+  | 0, L [A nalt; gts] => match as_ZLL gts with Some g => of_ZLL (compute_laa (Z.to_nat nalt) g) | None => err_sx 1 end
+  | 1, L [A ploidy; A has_pl; laa; pl] =>
+      match as_ZLL laa, as_ZLL pl with
+      | Some la, Some p => sx_resLL (compute_lpl ploidy (negb (has_pl =? 0)) la p)
+      | _, _ => err_sx 1 end
+  | 2, L [A nalt; gt; row] => match as_ZL gt, as_ZL row with
+                              | Some g, Some r => of_bool (check_laa_row (Z.to_nat nalt) g r) | _, _ => err_sx 1 end
+  | 3, L [A ploidy; A width; alts; pl] =>
+      match as_ZL alts with
+      | Some a => match pl with
+                  | L [] => of_Zs (spec_lpl_row ploidy (Z.to_nat width) a None)
+                  | L [p] => match as_ZL p with Some p => of_Zs (spec_lpl_row ploidy (Z.to_nat width) a (Some p)) | None => err_sx 1 end
+                  | _ => err_sx 1 end
+      | None => err_sx 1 end
+  | _, _ => err_sx 2
+  end.
+
 Definition dispatch (op : Z) (arg : sx) : sx :=
   let p := op / 100 in
   let k := op mod 100 in
@@ -199,5 +220,6 @@ Definition dispatch (op : Z) (arg : sx) : sx :=
   | 12 => d_C12 k arg
   | 13 => d_C13 k arg
   | 16 => d_C16 k arg
+  | 17 => d_C17 k arg
   | _ => err_sx 3
   end.
